@@ -109,6 +109,23 @@ example :
     all (render d cs) = .ok [⟨[B "F"], [(B "F", B "v\nmore\n\n")]⟩] := by
   decide +kernel
 
+/-- Inside the hypothesis as well (classes the independently written changes of round 7 went
+    for): continuation text that begins with `#` (a comment exists in the first column only),
+    text whose last character ends in the byte 0xA0 or 0x85 ("à" = C3 A0, "Å" = C3 85: white space
+    as Latin-1 bytes, letters as UTF-8), bytes that are no UTF-8 at all (a Latin-1 "ö" = F6), an
+    armor header line inside a value, and a continuation line of blanks only (which is an empty
+    logical line written with trailing white space, not a paragraph separator). -/
+example :
+    let B := Bytes.ofString
+    let d : Doc := [[⟨B "Changes", [], [B "  * closes:", B "#805210).", B " # not a comment", B "citt" ++ [195, 160],
+        [195, 133], B "J" ++ [246] ++ B "rg", B "-----BEGIN PGP SIGNED MESSAGE-----", []]⟩, ⟨B "After", B "x", []⟩]]
+    wfDoc d = true ∧
+    all (B "Changes:\n   * closes:\n #805210).\n  # not a comment\n citt" ++ [195, 160] ++ B "\n " ++ [195, 133] ++
+        B "\n J" ++ [246] ++ B "rg\n -----BEGIN PGP SIGNED MESSAGE-----\n .  \nAfter: x\n")
+      = .ok (d.map expectedPara) ∧
+    (d.map expectedPara).map (fun p => p.values.map (·.2.length)) = [[90, 1]] := by
+  decide +kernel
+
 /-- The empty document is well-formed; its renderings are runs of empty lines (here LF,
     CRLF with the final terminator dropped). -/
 example : wfDoc [] = true ∧ render [] [2, 0, 1, 0, 1] = [10] ∧ render [] [] = [] := by
